@@ -25,7 +25,7 @@ SPELLINGS = ["LF", "CRLF", "CR", "mixed"]
 TIERS = {
     "quick": {"ascii_other_enc": 1, "b_per_text": 6, "c_per_text": 2, "c_texts": 1500, "child_pairs": 150,
               "batch": 400, "min_seconds": 60},
-    "thorough": {"ascii_other_enc": 3, "b_per_text": 30, "c_per_text": 8, "c_texts": 100000, "child_pairs": 1500,
+    "thorough": {"ascii_other_enc": 3, "b_per_text": 150, "c_per_text": 25, "c_texts": 100000, "child_pairs": 2500,
                  "batch": 600, "min_seconds": 600},
 }
 
